@@ -136,8 +136,16 @@ def make_cases(ctx, rnd, tlc_inputs):
                   ("fixed", big, (rnd.randint(1, 4),)), ("optimal", big, ()), ("npl", ssp, (rnd.randint(1, 3),)),
                   ("mergemin", ssp, (rnd.randint(1, 6),)), ("mergetb", ssp, (rnd.randint(1, 3),)),
                   ("ensemble", ssp, (rnd.randint(1, 5), rnd.randint(1, 2), rnd.randint(1, 2))),
-                  ("holdout", big, rnd.choice([(0, 1), (1, 1), (1, 2), (1, 4), (3, 4), (1, 8)])),
-                  ("random_holdout", big, rnd.choice([(0, 1), (1, 1), (1, 2), (1, 4), (3, 8)]))]
+                  ("holdout", big, rnd.choice([(0, 1), (1, 1), (1, 2), (1, 4), (3, 4), (1, 8), (4, 5), (9, 10), (1, 3), (7, 10), (5, 6)])),
+                  ("random_holdout", big, rnd.choice([(0, 1), (1, 1), (1, 2), (1, 4), (3, 8), (4, 5), (1, 3), (9, 10)]))]
+    # enough experiments for more than ten generated plates (two-digit plate labels)
+    many = RScreen([(smp, pair, 0, False) for smp in range(4) for pair in ((1, 2), (3, 4), (1, 3), (2, 4), (1, 4))] + [(0, (1, 0), 0, False), (3, (0, 4), 0, False)])
+    cases += [("pair", many, (1, 0)), ("pair", many, (2, 1)), ("seg", many, (1,)), ("seg", many, (2,)), ("perm", many, (0,))]
+    # fractions that are not exact in binary floating point, on plates whose size makes fraction x size a whole number
+    # (for every size <= 40 the float product still has the ceiling of the exact one, so the specification's rational count applies)
+    for fn, fd, size in [(4, 5, 5), (9, 10, 10), (5, 6, 6), (4, 5, 10), (7, 10, 10), (1, 3, 6)]:
+        rows = [(i % 2, (1 + i % 3, 1 + (i // 3) % 3), 0, False) for i in range(size)] + [(0, (1, 2), 1, True), (1, (2, 0), 2, False)]
+        cases += [("holdout", RScreen(rows), (fn, fd)), ("random_holdout", RScreen(rows), (fn, fd))]
     return cases
 
 
